@@ -106,12 +106,12 @@ var valueFocusTexts = map[string][]string{
 	"tuple": {" []", " [ ]", " [\"a\", ]", " [\"a\", inh]", " [\"a\", inherit, ]", " [\"a\", inherit, t]", " [\"a\", inherit, true, ]", " [ , inherit]", " [\"a\" ",
 		" [\"a\",\n  \n]", " [tr, \"x\"]", " [tr, ]", " [\"a\", t, 1]", " [\"a\", tr, ]"},
 	"map": {" {}", " { }", " {\n}", " {\n  \n}", " { k = }", " { k = 1, }", " { k = 1\n  \n}", " { \"k\" = 4, j = }", " { (var.v) = 1 }", " { (va) = inh }", " { ( }", " { k = inh }",
-		" { k }", " { k = 1 j }", " { k = inherit, l = ign }", " { k = [tr] }", " { k = tr }", " { k = tr, (", " {\n  k = inherit\n  l = \n}"},
+		" { k }", " { k = 1 j }", " { k = inherit, l = ign }", " { k = [tr] }", " { k = tr }", " { k = tr, (", " {\n  k = inherit\n  l = \n}", " { (true ? null : \"k\") = 1 }", " { (null) = 1, k = 2 }"},
 	"object": {" {}", " { }", " {\n  \n}", " { fi }", " { first = }", " { first = \"x\", }", " { first = \"x\"\n  se\n}", " { \"first\" = \"x\", \"se\" }", " { first = \"x\", second = inh }",
 		" { third = t }", " { first = \"x\" sec }", " { (var.v) = 1 }", " { (va) = 1, th }", " { ( }", " { unknown = 1, first = \"a\" }", " {\n  first = \"x\"\n  first = \"y\"\n  \n}",
 		" { fir = 1 }", " { \"é\" = 1, fi }", " {\n  first = \"x\", \n  s\n}", " { fourth = [inh] }", " { fourth = [ ], th }", " { inner = { le } }", " { inner = { leaf = t } }",
 		" { list = [inh, ign, i] }", " { x = t }", " { x = true, y }", " { a = \"s\", b = f }", " { a = \"s\"\n  \n}", " {\n  second = inherit\n  \n  third = true\n}",
-		" { first = \"x\", \"sec", " { \"first\" = }", " { first = \"x\"  ,  }"},
+		" { first = \"x\", \"sec", " { \"first\" = }", " { first = \"x\"  ,  }", " { plain = 1, (true ? null : \"fallback\") = 2, \"quoted\" = 3 }"},
 	"expr": {" tr", " true", " !tr", " !tru.", " tr && fa", " tr &&", " (tr)", " (tr", " \"${tr}\"", " \"a${tr}b\"", " \"${tr", " tr ? fa : tr", " x ? tr", " x ? tr : ", " [for k, v in tr : fa if tr]",
 		" {for k, v in tr : k => fa}", " var.v", " var.", " tags[]", " tags[tr]", " tags[\"x\"]", " f1(tr)", " f1(tr, )", " f1(tr,", " f1(", " f1( )", " fv2(\"a\", tr, fa)", " f0(tr)", " unknownfn(tr)", " f1(var.)", " f2(tr", " f1(f2(tr), t)", " f", " f1", " fb(tr)", " fb(tr, [tr, ])", " fb(true, [], fa", " fb(true, [], false, t)", " fb(, tr)", " fb(tr,\n  [f],\n  t\n)", " fo({ x = t })", " fo({ })", " fb(tr).", " fb(var.v.)", " null", " 42", " \"lit\"", " <<EOT\n${tr}\nEOT", " -1", " 1 + tr", " tr == fa", " x[tr].y", " x.*.y"},
 }
@@ -465,6 +465,21 @@ func valueFocusFirstLine(every int) []*Scenario {
 				}
 				out = append(out, s)
 			}
+		}
+	}
+	// a declaration as the FIRST item of the file (it starts where the root body starts) and references to it written
+	// in top-level attributes: what is offered there does not depend on where in the file the declaration begins
+	for _, attr := range []string{"ref", "oo_ref", "a_str", "a_dyn", "hka"} {
+		for _, text := range []string{" var.v", " var.", " v"} {
+			head := "variable \"v\" {\n  type = string\n}\n"
+			src := head + attr + " =" + text + "\nkw = inherit\n"
+			w := newWorld()
+			pd := w.AddPath("root", valueFocusSchemaShared, map[string]string{"main.tf": src}, genFunctions(nil))
+			s := &Scenario{W: w, Main: pd, File: "main.tf", Src: []byte(src), Kind: "value-focus-first-item-declares/" + attr}
+			for off := len(head) + len(attr) + 2; off <= len(head)+len(attr)+2+len(text); off++ {
+				s.Offsets = append(s.Offsets, off)
+			}
+			out = append(out, s)
 		}
 	}
 	return out
